@@ -105,6 +105,55 @@ class Contract(object):
         return None
 
 
+def _freeze(v, depth=0):
+    """copy of an argument as it was at call entry: ndarrays and (nested) lists/tuples/dicts are copied, everything else
+    (tensor trains, function objects, scalars) is kept by reference"""
+    if isinstance(v, np.ndarray):
+        return np.array(v, copy=True) if v.size <= 2 ** 22 else v
+    if depth < 5:
+        if isinstance(v, list):
+            return [_freeze(w, depth + 1) for w in v]
+        if isinstance(v, tuple):
+            return tuple(_freeze(w, depth + 1) for w in v)
+        if isinstance(v, dict):
+            return {k: _freeze(w, depth + 1) for k, w in v.items()}
+    return v
+
+
+def _same(a, b, depth=0):
+    """is live argument `a` still what its entry copy `b` says?"""
+    if isinstance(b, np.ndarray):
+        if not isinstance(a, np.ndarray):
+            return False
+        if a.shape != b.shape:
+            # a list entry replaced by the same data with singleton axes added / removed (the splitting integrators normalise 2-D
+            # two-site components to 3-D in the caller's list): same value, recorded as an event, not a violation
+            ok = a.size == b.size and np.squeeze(a).shape == np.squeeze(b).shape and np.array_equal(np.squeeze(a), np.squeeze(b), equal_nan=(a.dtype.kind in 'fc'))
+            if ok and core.ctx() is not None:
+                core.ctx().events['input_array_reshaped_in_place'] += 1
+            return ok
+        return a.dtype == b.dtype and (a is b or np.array_equal(a, b, equal_nan=(a.dtype.kind in 'fc')))
+    if isinstance(b, (list, tuple)) and depth < 5:
+        return type(a) is type(b) and len(a) == len(b) and all(_same(x, y, depth + 1) for x, y in zip(a, b))
+    if isinstance(b, dict) and depth < 5:
+        return isinstance(a, dict) and a.keys() == b.keys() and all(_same(a[k], b[k], depth + 1) for k in b)
+    if isinstance(b, float) and b != b:
+        return isinstance(a, float) and a != a
+    if isinstance(b, (bool, int, float, complex, str, type(None), np.generic)):
+        return type(a) is type(b) and a == b
+    return a is b
+
+
+def _check_frozen(contract, args, kwargs, fargs, fkwargs, raised=False):
+    c = core.ctx()
+    prop = getattr(contract, 'input_prop', None) or getattr(contract, 'prop', None)
+    for key, live, entry in [(i, a, b) for i, (a, b) in enumerate(zip(args, fargs))] + [(k, kwargs[k], fkwargs[k]) for k in kwargs]:
+        if isinstance(entry, (np.ndarray, list, tuple, dict)):
+            same = _same(live, entry)
+            c.check(contract.api, 'input_unchanged', same, ['arg=%s' % key] + (['raised'] if raised and not same else []),
+                    {'arg': key, 'at_entry': entry, 'now': live} if not same else None, prop=prop)
+
+
 def install(owner, name, contract, replace_everywhere=False):
     """wrap attribute `name` of module/class `owner` with `contract`"""
     orig = owner.__dict__[name]
@@ -117,8 +166,14 @@ def install(owner, name, contract, replace_everywhere=False):
         if S.busy or not S.armed:
             return orig(*args, **kwargs)
         st = None
+        fargs, fkwargs = args, kwargs
+        frozen = False
         S.busy += 1
         try:
+            if getattr(contract, 'freeze', False):
+                # the oracle judges the result against the arguments as they were at call entry, not as the call left them
+                fargs, fkwargs = tuple(_freeze(a) for a in args), {k: _freeze(v) for k, v in kwargs.items()}
+                frozen = True
             st = contract.pre(args, kwargs)
             tgt = contract.inplace(args, kwargs)
         except Exception:
@@ -137,7 +192,9 @@ def install(owner, name, contract, replace_everywhere=False):
                 S.targets.pop()
             S.busy += 1
             try:
-                contract.exc(st, e, args, kwargs)
+                if frozen:
+                    _check_frozen(contract, args, kwargs, fargs, fkwargs, raised=True)
+                contract.exc(st, e, fargs, fkwargs)
             except Exception:
                 monitor_error(api, 'exc')
             finally:
@@ -148,7 +205,9 @@ def install(owner, name, contract, replace_everywhere=False):
             S.targets.pop()
         S.busy += 1
         try:
-            contract.post(st, res, args, kwargs)
+            if frozen:
+                _check_frozen(contract, args, kwargs, fargs, fkwargs)
+            contract.post(st, res, fargs, fkwargs)
         except Exception:
             monitor_error(api, 'post')
         finally:
